@@ -103,41 +103,65 @@ def ob_adopt(timeout=30):
     m = Module.load(BS); c = m.classes['BaseSimulation']
     f1, f2, f3 = c.methods['_find_current_simulation'], c.methods['load_results'], c.methods['load_results_from_dict']
     problems, unrec = [], []
-    # _find_current_simulation: symbolic execution over a two-record list
-    inputs = Opaque('self._inputs')
-    recs = [D({'inputs': Opaque('in%d' % k), 'results': Opaque('res%d' % k)}) for k in range(2)]
+    # _find_current_simulation: symbolic execution over a two-record list.  Inputs are records {code, error_model, decoder, method, error_rate}:
+    # the first four opaque values with symbolic equality, the error rate a real number; np.isclose is NOT equality (modelled as `equal or CLOSE`)
+    KEYS = ('code', 'error_model', 'decoder', 'method')
     eqs = {}
+
+    def mk_inputs(tag):
+        kv = {k: Opaque('%s.%s' % (tag, k)) for k in KEYS}
+        kv['error_rate'] = z3.Real('rate_%s' % tag)
+        return D(kv)
+    inputs = mk_inputs('self')
+    recs = [D({'inputs': mk_inputs('rec%d' % k), 'results': Opaque('res%d' % k)}) for k in range(2)]
+
+    def opaque_eq(a, b):
+        key = tuple(sorted((a.tag, b.tag)))
+        return eqs.setdefault(key, z3.Bool('eq_%s_%s' % key))
+
+    def dict_eq(a, b):
+        if set(a.kv) != set(b.kv):
+            return z3.BoolVal(False)
+        cs = []
+        for k in a.kv:
+            va, vb = a.kv[k], b.kv[k]
+            if isinstance(va, Opaque) and isinstance(vb, Opaque):
+                cs.append(z3.BoolVal(True) if va is vb else opaque_eq(va, vb))
+            elif isinstance(va, D) and isinstance(vb, D):
+                cs.append(dict_eq(va, vb))
+            elif isinstance(va, (Opaque, D)) or isinstance(vb, (Opaque, D)):
+                cs.append(z3.BoolVal(False))
+            else:
+                cs.append(eq(va, vb))
+        return z3.And(cs + [z3.BoolVal(True)])
 
     class EqX(X):
         def cmp(self, op, a, b, st):
             if isinstance(op, (ast.Eq, ast.NotEq)) and isinstance(a, Opaque) and isinstance(b, Opaque):
-                key = tuple(sorted((a.tag, b.tag)))
-                v = eqs.setdefault(key, z3.Bool('eq_%s_%s' % key))
+                v = opaque_eq(a, b)
                 return v if isinstance(op, ast.Eq) else z3.Not(v)
-            if isinstance(op, (ast.Eq, ast.NotEq)) and (isinstance(a, D) or isinstance(b, D)):
-                # comparison of a record with the empty dict literal
-                other = b if isinstance(a, D) and a.kv else a
-                r = z3.BoolVal(not (isinstance(a, D) and isinstance(b, D) and bool(a.kv) != bool(b.kv)) and (isinstance(a, D) and isinstance(b, D) and not a.kv and not b.kv))
+            if isinstance(op, (ast.Eq, ast.NotEq)) and isinstance(a, D) and isinstance(b, D):
+                r = dict_eq(a, b)
                 return r if isinstance(op, ast.Eq) else z3.Not(r)
             return X.cmp(self, op, a, b, st)
     x = EqX(m, {})
     selfo = Obj(c, {'_inputs': inputs}, 'sim')
     st, ret = x.run(f1, [T(recs, 'list')], {}, selfo)
-    e0 = eqs.get(('in0', 'self._inputs')); e1 = eqs.get(('in1', 'self._inputs'))
-    if e0 is None or e1 is None:
-        problems.append('_find_current_simulation does not compare record inputs with self._inputs')
+    e0 = dict_eq(recs[0].kv['inputs'], inputs); e1 = dict_eq(recs[1].kv['inputs'], inputs)
     # expected: first record with equal inputs, else {}
-    ok = True
     if not problems:
         from pyvc.values import Alt
         alts = ret.alts if isinstance(ret, Alt) else [(z3.BoolVal(True), ret)]
         got0 = z3.Or([c_ for c_, v in alts if v is recs[0]] + [z3.BoolVal(False)])
         got1 = z3.Or([c_ for c_, v in alts if v is recs[1]] + [z3.BoolVal(False)])
         gote = z3.Or([c_ for c_, v in alts if isinstance(v, D) and not v.kv] + [z3.BoolVal(False)])
-        goal = [z3.Or(got0 != e0, got1 != z3.And(z3.Not(e0), e1), gote != z3.And(z3.Not(e0), z3.Not(e1)))]
+        other = z3.Or([c_ for c_, v in alts if v is not recs[0] and v is not recs[1] and not (isinstance(v, D) and not v.kv)] + [z3.BoolVal(False)])
+        goal = [z3.Or(got0 != e0, got1 != z3.And(z3.Not(e0), e1), gote != z3.And(z3.Not(e0), z3.Not(e1)), other)]
         r = check(goal, timeout)
-        if r['verdict'] != 'unsat':
-            problems.append('_find_current_simulation does not return exactly the first record whose inputs equal self._inputs (else {})')
+        if r['verdict'] == 'sat':
+            problems.append('_find_current_simulation does not return exactly the first record whose inputs EQUAL self._inputs (else {}): %s' % str(r.get('model'))[:300])
+        elif r['verdict'] != 'unsat':
+            raise Unsupported('adoption query undecided: %s' % r['verdict'])
     # load_results_from_dict: only keys of self._results that are in data['results']
     src3 = ast.unparse(f3.node)
     if 'for key in self._results.keys()' not in src3 or "if key in data['results'].keys()" not in src3 or "self._results[key] = data['results'][key]" not in src3:
@@ -277,6 +301,10 @@ def bounded(tier, seed):
             jobs.append((compress, k, 0.3 if k % 4 == 0 else None, None))
         for at in ((2, 5) if tier == 'quick' else (1, 2, 3, 5, 7, 8)):
             jobs.append((compress, 0, None, at))
+        # restart with an appended simulation whose error rate is ALMOST one already in the file (results of a different rate must not be adopted)
+        for near in ((0.1000001, 0.2 * (1 + 1e-9)) if tier == 'quick' else (0.1000001, 0.2 * (1 + 1e-9), 0.1 + 1e-12, 0.09999999)):
+            jobs.append((compress, 0, near, None))
+            jobs.append((compress, 3, near, None))
     with mp.get_context('fork').Pool(12) as pool:
         for (compress, k, extra, at), why, crashed in pool.imap_unordered(_job, jobs):
             ev += 1
@@ -291,7 +319,7 @@ def bounded(tier, seed):
     for v in sorted(viol, key=lambda v: (v['input'].get('compress', False), v['input'].get('crash_at_effect', 0))):
         if v['obligation'] not in seen:
             seen.add(v['obligation']); out.append(v)
-    return dict(bound='2 simulations, 4 trials then restart to 6 (every 4th case with a third simulation appended); os._exit at EVERY effect point of every save_json call of the run '
+    return dict(bound='2 simulations, 4 trials then restart to 6 (every 4th case with a third simulation appended; also appended simulations whose error rate differs from a stored one by 1e-6..1e-12 relative); os._exit at EVERY effect point of every save_json call of the run '
                       '(after open, mid-write, after close, before/after replace), plain and gzip; KeyboardInterrupt at trial boundaries',
                 evaluations=ev, distinct_nontrivial=len(nt), exhaustive=True,
                 rule='real BatchSimulation in a subprocess; trials tagged (pid, serial) so that prefix preservation is exact; non-trivial iff the first run actually died',
